@@ -23,7 +23,8 @@ Meaning(r) ==
   CASE r.op = "small_add" -> Add(X, r.y[1])
     [] r.op = "small_mul" -> Mul(X, r.y[1])
     [] r.op = "large_add_from" -> Add(X, Shl(Y, LBITS * r.n))
-    [] r.op \in {"long_mul", "large_mul"} -> Mul(X, Y)
+    [] r.op \in {"long_mul", "large_mul", "mul_assign", "bigint_mul_assign"} -> Mul(X, Y)
+    [] r.op = "large_add" -> Add(X, Y)
     [] r.op \in {"pow5", "bigint_pow5"} -> Pow5Mul(X, r.n)
     [] r.op \in {"shl", "bigint_pow2"} -> Shl(X, r.n)
     [] r.op = "shl_bits" -> Shl(X, r.n)
@@ -33,13 +34,15 @@ Meaning(r) ==
     [] r.op = "from_u64" -> r.y[1]
     [] OTHER -> X
 
-Mutating(op) == op \in {"small_add", "small_mul", "large_add_from", "long_mul", "large_mul", "pow5", "bigint_pow5", "shl",
+\* the operator forms (`x *= y`) unwrap the Option: they report an overflow by panicking
+Operator(op) == op \in {"mul_assign", "bigint_mul_assign"}
+Mutating(op) == op \in {"small_add", "small_mul", "large_add_from", "large_add", "mul_assign", "bigint_mul_assign", "long_mul", "large_mul", "pow5", "bigint_pow5", "shl",
                         "bigint_pow2", "shl_bits", "shl_limbs", "bigint_pow10", "normalize", "from_u64"}
 
 \* operands in the range the property names
 InDomain(r) ==
-  CASE r.op \in {"long_mul", "large_mul"} -> NonZeroNorm(r.x) /\ NonZeroNorm(r.y)
-    [] r.op = "large_add_from" -> Normalized(r.x) /\ NonZeroNorm(r.y)
+  CASE r.op \in {"long_mul", "large_mul", "mul_assign", "bigint_mul_assign"} -> NonZeroNorm(r.x) /\ NonZeroNorm(r.y)
+    [] r.op \in {"large_add_from", "large_add"} -> Normalized(r.x) /\ NonZeroNorm(r.y)
     [] r.op \in {"pow5", "bigint_pow5", "bigint_pow10", "bigint_pow2", "shl", "shl_bits", "shl_limbs"} -> NonZeroNorm(r.x)
     [] r.op \in {"hi64", "bit_length"} -> Normalized(r.x)
     [] r.op \in {"u32_hi64_1", "u32_hi64_2", "u32_hi64_3", "u64_hi64_1", "u64_hi64_2"} -> r.x # <<>> /\ r.x[1] # <<>>
@@ -47,7 +50,9 @@ InDomain(r) ==
     [] OTHER -> TRUE
 
 Judge1(r) ==
-  LET o == r.res
+  LET o0 == r.res
+      \* an operator's panic is its way of saying "none" (the contents are lost with it)
+      o == IF Operator(r.op) /\ o0.r = "panic" THEN [o0 EXCEPT !.r = "none"] ELSE o0
       heap == r.backend = "heap"
       val == Meaning(r)
   IN IF o.r = "panic" THEN "panicked"
@@ -84,7 +89,8 @@ ModelOut(r) ==
     [] r.op = "small_mul" -> SmallMul(r.x, r.y[1])
     [] r.op = "large_add_from" -> LargeAddFrom(r.x, r.y, r.n)
     [] r.op = "long_mul" -> LongMul(r.x, r.y)
-    [] r.op = "large_mul" -> LargeMul(r.x, r.y)
+    [] r.op \in {"large_mul", "mul_assign", "bigint_mul_assign"} -> LargeMul(r.x, r.y)
+    [] r.op = "large_add" -> LargeAdd(r.x, r.y)
     [] r.op \in {"pow5", "bigint_pow5"} -> Pow(r.x, r.n)
     [] r.op \in {"shl", "bigint_pow2"} -> ShlVec(r.x, r.n)
     [] r.op = "shl_bits" -> ShlBits(r.x, r.n)
@@ -98,6 +104,7 @@ Drift(r) ==
      \/ (r.op \in {"pow5", "bigint_pow5"} /\ Len(r.x) * r.n > 6000) THEN "unmodelled"
   ELSE LET m == ModelOut(r) IN
        IF m.r = "maybe" THEN "conforms"
+       ELSE IF Operator(r.op) /\ m.r = "none" /\ r.res.r = "panic" THEN "conforms"
        ELSE IF m.r # r.res.r THEN "DRIFT"
        ELSE IF m.r = "ok" /\ m.v # r.res.v THEN "DRIFT"
        ELSE "conforms"
